@@ -487,6 +487,10 @@ pub struct MintCase {
     /// truncate the account by this many bytes (malformed TLV)
     pub truncate: u8,
     pub badge: bool,
+    /// before the mint is offered, ANOTHER config's badge authority tries to issue a badge: 1 = naming this config with its own
+    /// config extension, 2 = naming this config and this config's extension (wrong signer), 3 = a regular badge under its own config
+    #[serde(default)]
+    pub foreign: u8,
     /// 0 initialize_pool_v2 (as one of the two mints), 1 initialize_pool_with_adaptive_fee, 2 initialize_reward_v2
     pub offered_to: u8,
 }
@@ -654,7 +658,35 @@ pub fn check_mint(c: &MintCase, l: &mut Local) -> Result<(), String> {
 
         }
     }
+    // the badge that counts is one issued by THIS config's badge authority
     let badge_exists = w.bank.accounts.contains_key(&token_badge_pda(&w.configs[cfg].key, &key));
+    if c.foreign % 4 != 0 {
+        let cfg_y = w.init_config(300);
+        w.init_config_extension(cfg_y);
+        let ix = w.ix_set_config_feature_flag(cfg_y, whirlpool::state::ConfigFeatureFlag::TokenBadge(true));
+        w.must("feature flag (other config)", &ix);
+        let (x, y) = (w.configs[cfg].clone(), w.configs[cfg_y].clone());
+        let mut ix = w.ix_init_token_badge(cfg_y, &key);
+        // account order: whirlpools_config, whirlpools_config_extension, token_badge_authority, token_mint, token_badge, funder, system_program
+        match c.foreign % 4 {
+            1 => {
+                ix.accounts[0].pubkey = x.key;
+                ix.accounts[4].pubkey = token_badge_pda(&x.key, &key);
+            }
+            2 => {
+                ix.accounts[0].pubkey = x.key;
+                ix.accounts[1].pubkey = config_extension_pda(&x.key);
+                ix.accounts[4].pubkey = token_badge_pda(&x.key, &key);
+            }
+            _ => {}
+        }
+        let _ = y;
+        let ok = w.exec(&ix).ok();
+        l.count(&format!("foreign_badge_attempt_{}/{}", c.foreign % 4, if ok { "accepted" } else { "refused" }));
+        if c.foreign % 4 != 3 && ok {
+            return Err(format!("initialize_token_badge for this config succeeded with another config's badge authority signing (variant {})", c.foreign % 4));
+        }
+    }
     let eff = MintCase { badge: badge_exists, ..c.clone() };
     let accepted = match c.offered_to % 3 {
         0 => w.init_pool(cfg, &m, &other, ts, 1u128 << 64).is_ok(),
@@ -713,13 +745,13 @@ fn mint_case() -> BoxedStrategy<MintCase> {
         prop_oneof![2 => Just(1u8), 1 => Just(2u8), 1 => Just(0u8)],
         prop_oneof![12 => Just(0u8), 1 => 1u8..40],
         any::<bool>(),
-        0u8..3,
+        (0u8..3, prop_oneof![3 => Just(0u8), 1 => 1u8..4]),
     )
-        .prop_map(|(token2022, native_2022, freeze_authority, mut extensions, default_state, truncate, badge, offered_to)| {
+        .prop_map(|(token2022, native_2022, freeze_authority, mut extensions, default_state, truncate, badge, (offered_to, foreign))| {
             // an extension type appears at most once in a mint the token program could have produced
             let mut seen = std::collections::BTreeSet::new();
             extensions.retain(|e| seen.insert(e.ty));
-            MintCase { token2022, native_2022, freeze_authority, extensions, default_state, truncate, badge, offered_to }
+            MintCase { token2022, native_2022, freeze_authority, extensions, default_state, truncate, badge, foreign, offered_to }
         })
         .boxed()
 }
@@ -732,7 +764,8 @@ pub fn def() -> CheckDef {
                instruction every Whirlpool / FeeTier / AdaptiveFeeTier / Oracle / Config account in the bank is decoded by the harness and checked against the \
                published bounds; numeric setters and pool creation must accept <=> in bounds.  (b) Token-2022 mint bytes assembled from known and unknown \
                extension type numbers with well-formed or wrong lengths, truncation, freeze authority, default-account-state values, native-2022 key, with or \
-               without a token badge, offered to initialize_pool_v2 / initialize_pool_with_adaptive_fee / initialize_reward_v2: success => the stated admission \
+               without a token badge issued by the config's own badge authority (one case in four: after ANOTHER config's badge authority tried to issue one for this config \
+               - which must fail - or issued one under its own config), offered to initialize_pool_v2 / initialize_pool_with_adaptive_fee / initialize_reward_v2: success => the stated admission \
                rule allows the mint (refusals of allowed mints are counted as generator health, not violations).  Non-trivial = (a) a sequence with a value \
                rejected at / accepted on a bound, (b) a Token-2022 mint with >=2 extensions incl. a badge-gated one.",
         assumptions: vec!["nsvm runtime as in DESIGN.md §5", "mint bytes are built directly (the domain of the admission check); malformed TLV may already be refused by the token program or Anchor"],
